@@ -135,6 +135,8 @@ def _field_adapter(f: dict):
         return se.IntEnum(_enum_cls("enum", _members(ad["ms"])))
     if ad["name"] == "IntFlag":
         return se.IntFlag(_enum_cls("flag", _members(ad["ms"])))
+    if ad["name"] == "Bool":
+        return se.BoolAdapter()
     raise Unreflectable("bitfield member adapter %r" % (ad,))
 
 
@@ -372,6 +374,8 @@ def to_tree(obj) -> dict:
                 f["ad"] = {"name": "IntEnum", "ms": _ms_of(ad.enum_cls)}
             elif isinstance(ad, se.IntFlag):
                 f["ad"] = {"name": "IntFlag", "ms": _ms_of(ad.flag_cls)}
+            elif isinstance(ad, se.BoolAdapter):
+                f["ad"] = {"name": "Bool"}
             elif ad is not None and not isinstance(ad, se.IdentityAdapter):
                 raise Unreflectable("bitfield member adapter %r" % (ad,))
             fs.append(f)
@@ -607,6 +611,8 @@ def canon(value, tree: Optional[dict] = None, pod: Optional[bool] = None, _frame
                         x = _enum_to_int(_enum_cls("enum", _members(ad["ms"])), x)
                     elif ad and ad["name"] == "IntFlag":
                         x = _flags_to_int(_enum_cls("flag", _members(ad["ms"])), x)
+                    elif ad and ad["name"] == "Bool" and isinstance(x, bool):
+                        x = int(x)
                 except (KeyError, ValueError, TypeError):
                     pass
                 ents.append({"n": f["n"], "v": cint(x) if isinstance(x, int) else _unknown(x)})
@@ -704,6 +710,8 @@ def to_py(tree: dict, cv: dict, pod: bool = False, _frames: tuple = ()):
                     x = _enum_py(_enum_cls("enum", _members(ad["ms"])), x, pod)
                 elif ad and ad["name"] == "IntFlag":
                     x = _flag_py(_enum_cls("flag", _members(ad["ms"])), x, pod)
+                elif ad and ad["name"] == "Bool":
+                    x = bool(x)
                 d[en["n"]] = x
             if tree.get("dc") and not pod:
                 return _dc_for(tree)(**d)
